@@ -39,7 +39,8 @@ def build_fcs(data, names=None, version='FCS3.0', datatype='D', byteord=None, wi
               offsets_in='header', end_convention='last', pad_text=0, pad_data=0, extra=None, delim='/',
               mode='L', drop_keywords=(), amplification=None, gains=None, voltages=None, labels=None,
               text_after_data=False, analysis=None, nextdata='0', tot=None, par=None,
-              stext=None, stext_leading_delim=True, analysis_in='header', empty_data='legacy', trailer=b''):
+              stext=None, stext_leading_delim=True, analysis_in='header', empty_data='legacy', trailer=b'',
+              analysis_leading_delim=True):
     """Returns the bytes of an FCS file. `data`: N rows x D numbers.
 
     Later additions (defaults keep the earlier byte-for-byte output):
@@ -96,6 +97,8 @@ def build_fcs(data, names=None, version='FCS3.0', datatype='D', byteord=None, wi
     text0 = render(0, 0)
     header_len = 58
     analysis_bytes = encode_text(analysis, delim).encode('latin-1') if analysis else b''
+    if analysis_bytes and not analysis_leading_delim:
+        analysis_bytes = analysis_bytes[1:]          # the first delimiter of a non-primary segment is optional for the reader
     if not text_after_data:
         text_begin = header_len + 0
         text_end = text_begin + len(text0) - 1
